@@ -370,8 +370,11 @@ func (p *protocolV2) messagePump(client *clientV2, startedChan chan bool) {
 			// count the message before it becomes answerable: once it is in the
 			// in-flight set this client's FIN/REQ (by an id it knows from an earlier
 			// delivery) or a timeout can take it out again and decrement the count
+			// (counting and registering are not interleaved with Channel.Empty(), see FIN)
+			subChannel.RLock()
 			client.SendingMessage()
 			subChannel.StartInFlightTimeout(msg, client.ID, msgTimeout)
+			subChannel.RUnlock()
 			err = p.SendMessage(client, msg, buf.Bytes())
 			bufferPoolPut(buf)
 			if err != nil {
@@ -739,13 +742,20 @@ func (p *protocolV2) FIN(client *clientV2, params [][]byte) ([]byte, error) {
 		return nil, protocol.NewFatalClientErr(nil, "E_INVALID", err.Error())
 	}
 
+	// the channel's read lock keeps Channel.Empty() out between the two steps:
+	// Empty() resets the client's in-flight count, a message handed out after it
+	// counts again, and the late decrement then took that count away - the
+	// client held a message the count did not know and was sent one beyond RDY
+	client.Channel.RLock()
 	err = client.Channel.FinishMessage(client.ID, *id)
+	if err == nil {
+		client.FinishedMessage()
+	}
+	client.Channel.RUnlock()
 	if err != nil {
 		return nil, protocol.NewClientErr(err, "E_FIN_FAILED",
 			fmt.Sprintf("FIN %s failed %s", *id, err.Error()))
 	}
-
-	client.FinishedMessage()
 
 	return nil, nil
 }
@@ -790,13 +800,12 @@ func (p *protocolV2) REQ(client *clientV2, params [][]byte) ([]byte, error) {
 		timeoutDuration = clampedTimeout
 	}
 
+	// (the channel adjusts the client's in-flight count itself, see RequeueMessage)
 	err = client.Channel.RequeueMessage(client.ID, *id, timeoutDuration)
 	if err != nil {
 		return nil, protocol.NewClientErr(err, "E_REQ_FAILED",
 			fmt.Sprintf("REQ %s failed %s", *id, err.Error()))
 	}
-
-	client.RequeuedMessage()
 
 	return nil, nil
 }
